@@ -9,12 +9,53 @@ Local Open Scope string_scope.
    the address check and the interval check are parameters.  Both functions are evaluated against the real code on
    every run (the library as reference, the real discovery/injector/proxy as system).
 
-   STATUS: the full statement
-       forall relabel c d h, <relabel neither reads nor writes the two interval labels, keeps job/scheme/path, makes no
-       label with the invalid-label prefix or a routing name> -> sharded relabel c h d == plain relabel c d
-   is NOT yet a theorem of this development; what is proved are the pieces below, the equivalence on the concrete
-   witnesses (incl. an overridden parameter and a label name starting with a digit) and the refutation for relabel
-   rules that read the interval labels (a known finding). The property is decided by the three-way differential run. *)
+   C02_equivalent is the full statement for EVERY relabel function, port test, address check, interval check, job
+   and discovered label set, under hypotheses that say what the property needs of the relabel program:
+     - the two relabel runs (with the two interval labels in the input: one Prometheus; without: the coordinator)
+       both drop the target or both keep it, and their results agree on every label but the two interval labels, which
+       the coordinator's result does not carry (the rules neither read nor write them: without this the statement is
+       refuted below, a known finding);
+     - the relabelled set is a label set (unique names, no empty value), keeps job, scheme and metrics path, has no
+       name that already carries the invalid-label prefix, no routing parameter name, and its __param_ names are
+       valid names;
+     - the job's params have unique keys, none of them a routing name; an address that got its port needs none.
+   Results are compared as what they are: label sets as maps from names to values, queries key by key
+   (res_equiv).  C02_equivalent_checked is the same with every hypothesis as a computable test, which the
+   correspondence run evaluates on its inputs (evidence: model_theorem_applies).  *)
+From KV Require Import Proofs.TranslateEquiv.
+
+Theorem C02_equivalent :
+  forall (R : labels -> option labels) (np aok : string -> bool) (iok : string -> string -> bool)
+         (c : jobcfg) (hash : N) (d : labels),
+  ndq (jc_params c) ->
+  qval "_hash" (jc_params c) = [] /\ qval "_jobName" (jc_params c) = [] /\ qval "_scheme" (jc_params c) = [] ->
+  (forall a, np a = true -> np (a ++ ":80") = false /\ np (a ++ ":443") = false) ->
+  forall Lp Lc : labels,
+  R (pre true c d) = Some Lp ->
+  R (pre false c d) = Some Lc ->
+  (forall k, lval k Lp = if String.eqb k I_ then jc_interval c else if String.eqb k T_ then jc_timeout c else lval k Lc) ->
+  lval I_ Lc = "" -> lval T_ Lc = "" ->
+  nd Lp -> ne Lp -> relabelled_ok Lc ->
+  res_equiv (sharded R np aok iok c hash d) (plain R np aok iok c d).
+Proof. exact sharded_equiv_plain. Qed.
+Print Assumptions C02_equivalent.
+
+Theorem C02_equivalent_checked :
+  forall R np aok iok c hash d,
+  (forall a, np a = true -> np (a ++ ":80") = false /\ np (a ++ ":443") = false) ->
+  cfg_okb c = true -> hyp_okb R c d = true ->
+  res_equiv (sharded R np aok iok c hash d) (plain R np aok iok c d).
+Proof. exact sharded_equiv_plain_checked. Qed.
+Print Assumptions C02_equivalent_checked.
+
+(* the shard's labels, closed form: what the shard's Prometheus holds for a query parameter of the job *)
+Theorem C02_param_on_shard :
+  forall c hash L addr, good (jc_params c) L addr -> ndq (jc_params c) -> forall x, routing x = false ->
+  lval ("__param_" ++ x) (F_ c hash L addr) =
+  if String.eqb (lval ("__param_" ++ x) L) "" then match qval x (jc_params c) with v0 :: _ => v0 | [] => "" end
+  else lval ("__param_" ++ x) L.
+Proof. exact F_param. Qed.
+Print Assumptions C02_param_on_shard.
 
 (* the proxy: host and path untouched, the scheme comes back from the routing parameter, the query loses exactly the
    three routing parameters *)
@@ -25,10 +66,9 @@ Theorem C02_proxy_restores : forall u,
 Proof. exact translate_url_fields. Qed.
 Print Assumptions C02_proxy_restores.
 
-Theorem C02_routing_param_forgotten : forall k f q,
-  routing k = true ->
-  filter (fun kv => negb (routing (fst kv))) (qset k f q) = filter (fun kv => negb (routing (fst kv))) q.
-Proof. exact filter_qset_routing. Qed.
+Theorem C02_routing_param_forgotten : forall k u,
+  qval k (u_query (translate_url u)) = if routing k then [] else qval k (u_query u).
+Proof. exact qval_translate. Qed.
 Print Assumptions C02_routing_param_forgotten.
 
 (* a parameter the job configures: dropped from the shipped labels when it still has the job's value, shipped under
@@ -60,6 +100,12 @@ Example C02_example_equal :
         {| u_scheme := "https"; u_host := "blackbox:9115"; u_path := "/probe";
            u_query := [("module", ["http_2xx"; "second"]); ("target", ["h1"])] |}).
 Proof. vm_compute. split; reflexivity. Qed.
+(* the hypotheses of C02_equivalent_checked hold on this witness (a configured parameter overridden by a rule, a
+   mapped name starting with a digit) and on the port test of the correspondence run *)
+Example C02_hypotheses_satisfiable :
+  cfg_okb w_cfg = true /\ hyp_okb (relabel_rules w_rules) w_cfg w_d = true /\
+  (forall a, x_needs_port a = true -> x_needs_port (a ++ ":80") = false /\ x_needs_port (a ++ ":443") = false).
+Proof. split; [vm_compute; reflexivity|]. split; [vm_compute; reflexivity|]. exact x_needs_port_add. Qed.
 
 (* the full statement without the hypothesis on the interval labels is false: a rule that copies
    __scrape_interval__ into a visible label (the known finding, replayed on the code by the correspondence run) *)
@@ -70,3 +116,16 @@ Theorem C02_equiv_refuted_interval_labels :
   plain (relabel_rules w_ivl) x_needs_port x_addr_ok x_interval_ok w_cfg w_d.
 Proof. vm_compute. discriminate. Qed.
 Print Assumptions C02_equiv_refuted_interval_labels.
+
+(* ... and without the hypothesis that the relabelled set keeps its job label: a rule that empties `job` (one
+   Prometheus: no job label; the shard's Prometheus fills the job name in again).  Known finding, found while
+   proving C02_equivalent, replayed on the code by the correspondence run (corpus/C02). *)
+Definition w_nojob : list rrule :=
+  [ {| rr_action := RReplace; rr_src := ["__address__"]; rr_sep := ";"; rr_pat := PSome; rr_target := "job"; rr_repl := [] |} ].
+Theorem C02_equiv_refuted_job_emptied :
+  ~ res_equiv (sharded (relabel_rules w_nojob) x_needs_port x_addr_ok x_interval_ok w_cfg 77 w_d)
+              (plain (relabel_rules w_nojob) x_needs_port x_addr_ok x_interval_ok w_cfg w_d).
+Proof.
+  intros H. vm_compute in H. destruct H as [H _]. specialize (H "job"). vm_compute in H. discriminate.
+Qed.
+Print Assumptions C02_equiv_refuted_job_emptied.
